@@ -19,7 +19,7 @@ for prop in sys.argv[1:]:
         meta = {
             "id": "%s-4%s" % (prop, var), "property": prop, "round": 4,
             "source": "independent sub-agent given only the property text and a scratch worktree (round 4: written after the round-3 strengthening, authors asked to avoid the most obvious sites, never shown to the rule author beforehand)",
-            "base": "720b770",
+            "base": "659c0c1",
             "needs_to_manifest": "see notes.md (written by the author of the change)",
             "demo_tests": v["demo_fns"],
             "confirmed_by": "tools/verify_seed.py in a scratch worktree: (1) patch only: cargo test --workspace --offline -> rc %d, %d ok lines, 0 failed; "
